@@ -88,9 +88,10 @@ func (bt *BaseToken) loadConfigUnlessLoaded() error {
 	if err != nil {
 		return err
 	}
-	if bt.config == nil {
-		bt.config = &proto.Token{}
-	}
+	// Always start from a fresh object: what an earlier invocation left in memory
+	// (e.g. a rejected setFee, or a simulation that was never committed) must not
+	// leak into this one when the ledger holds no metadata yet.
+	bt.config = &proto.Token{}
 
 	if len(data) == 0 {
 		return nil
